@@ -622,8 +622,16 @@ func c04Oracle(sc *c04Scenario, hist []c04Ev, paused [][]string, finalLn map[int
 				}
 			}
 		}
-		// counting bounds at every instant
-		cAcc, sAcc, dSt, dDn, rej := make([]int, n+1), make([]int, n+1), make([]int, n+1), make([]int, n+1), make([]int, n+1)
+		// bounds on the number of held messages at every instant, by message identity:
+		//   cHeld[t] = enqueue returned by t and no Dequeue that delivers it has started by t   (surely held)
+		//   sHeld[t] = enqueue started by t and no Dequeue that delivers it has returned by t    (possibly held)
+		cHeld, sHeld, rej := make([]int, n+1), make([]int, n+1), make([]int, n+1)
+		deqOf := map[int]*c04Op{}
+		for _, d := range deqs {
+			if deqOf[d.id] == nil {
+				deqOf[d.id] = d
+			}
+		}
 		for _, o := range bops {
 			end := o.res
 			if end < 0 {
@@ -631,27 +639,29 @@ func c04Oracle(sc *c04Scenario, hist []c04Ev, paused [][]string, finalLn map[int
 			}
 			switch {
 			case o.code == 0 && o.out == 1:
+				dInv, dRes := n+1, n+1
+				if d := deqOf[o.id]; d != nil {
+					dInv, dRes = d.inv, d.res
+					if dRes < 0 {
+						dRes = n + 1
+					}
+				}
 				for t := o.inv; t <= n; t++ {
-					sAcc[t]++
-					if t >= end {
-						cAcc[t]++
+					if t < dRes {
+						sHeld[t]++
+					}
+					if t >= end && t < dInv {
+						cHeld[t]++
 					}
 				}
 			case o.code == 0 && o.out == 0:
 				for t := o.inv; t < end; t++ {
 					rej[t]++
 				}
-			case o.code == 1 && o.out >= 0:
-				for t := o.inv; t <= n; t++ {
-					dSt[t]++
-					if t >= end {
-						dDn[t]++
-					}
-				}
 			}
 		}
-		hmin := func(t int) int { return cAcc[t] - dSt[t] }
-		hmax := func(t int) int { return sAcc[t] - dDn[t] }
+		hmin := func(t int) int { return cHeld[t] }
+		hmax := func(t int) int { return sHeld[t] }
 		if sc.Eff > 0 {
 			for t := 0; t < n; t++ {
 				if hmin(t) > sc.Eff {
@@ -695,7 +705,7 @@ func c04Oracle(sc *c04Scenario, hist []c04Ev, paused [][]string, finalLn map[int
 					}
 					add(sig, fmt.Sprintf("Enqueue(id=%d) refused with ErrMailboxFull although at most %d < %d messages were held at any instant of the call", o.id, hi, sc.Eff))
 				}
-			case o.th != -2 && ((o.code == 1 && o.out == -1) || (o.code == 3 && o.out == 1) || (o.code == 2 && o.out == 0)):
+			case o.th != -2 && ((o.code == 1 && o.out == -1) || (o.code == 3 && o.out == 1)):
 				if lo > 0 {
 					what := map[int]string{1: "Dequeue returned nil", 2: "Len returned 0", 3: "IsEmpty returned true"}[o.code]
 					if inFlight(o) {
@@ -705,9 +715,9 @@ func c04Oracle(sc *c04Scenario, hist []c04Ev, paused [][]string, finalLn map[int
 					}
 				}
 			case o.code == 2:
-				if int(o.out) < lo || int(o.out) > hiRej {
-					add("len-out-of-range", fmt.Sprintf("Len returned %d, held count during the call was within [%d,%d]", o.out, lo, hiRej))
-				}
+				// Len is documented as approximate under concurrency (counters are updated after the
+				// slot store / before the push): only a quiescent mailbox is checked, below.
+				_ = hiRej
 			case o.code == 3 && o.out == 0:
 				if hi <= 0 {
 					add("nonempty-report-on-empty", "IsEmpty returned false although nothing could be held")
@@ -732,7 +742,24 @@ func c04Oracle(sc *c04Scenario, hist []c04Ev, paused [][]string, finalLn map[int
 						break
 					}
 				}
-				add("stuck-at-quiescence:paused@"+at, fmt.Sprintf("all threads returned; Dequeue keeps returning nil but accepted ids %v were never delivered (Len=%d)", stuck, finalLn[b]))
+				// shape of the history: are all stuck messages from one sender key whose Enqueue calls
+				// (from different threads) overlapped in time?
+				shape := ""
+				keys := map[int]bool{}
+				for _, id := range stuck {
+					keys[sent[id].Sender] = true
+				}
+				if sc.K == "fair" && len(keys) == 1 {
+					for _, e1 := range bops {
+						for _, e2 := range bops {
+							if e1.code == 0 && e2.code == 0 && e1.out == 1 && e2.out == 1 && e1.th != e2.th && e1.th >= 0 && e2.th >= 0 &&
+								keys[sent[e1.id].Sender] && keys[sent[e2.id].Sender] && e1.inv < e2.res && e2.inv < e1.res {
+								shape = ":same-sender-concurrent-enqueues"
+							}
+						}
+					}
+				}
+				add("stuck-at-quiescence"+shape+":paused@"+at, fmt.Sprintf("all threads returned; Dequeue keeps returning nil but accepted ids %v were never delivered (Len=%d)", stuck, finalLn[b]))
 			} else if finalLn[b] != 0 || !finalEm[b] {
 				add("len-nonzero-when-empty", fmt.Sprintf("every accepted message was dequeued but Len=%d IsEmpty=%v", finalLn[b], finalEm[b]))
 			}
@@ -1161,5 +1188,20 @@ func TestVerifC04Stress(t *testing.T) {
 		if c04PrioKind(cfg.K) {
 			w.put(c04PrioDrain(cfg, verifSeed()+uint64(i)))
 		}
+	}
+}
+
+// TestVerifC04Pow2 evaluates the real nextPowerOfTwo (ring size rounding).
+func TestVerifC04Pow2(t *testing.T) {
+	type in struct{ N int64 }
+	type out struct {
+		N int64
+		R uint64
+	}
+	ins := verifReadJSONL[in](t, "c04_pow2_in.jsonl")
+	w := newVerifWriter(t, "c04_pow2_out.jsonl")
+	defer w.close()
+	for _, x := range ins {
+		w.put(out{x.N, nextPowerOfTwo(int(x.N))})
 	}
 }
